@@ -86,6 +86,10 @@ def writes_of(fn, module_globals):
 def reads_ambient(fn):
     """names of ambient-state APIs referenced (os.environ, time, random, id, hash, getcwd ...)"""
     bad = set()
+    for d in fn.decorator_list:
+        txt = ast.unparse(d)
+        if "cache" in txt:
+            bad.add("@" + txt + " (state surviving from an earlier call / run)")
     for n in ast.walk(fn):
         if isinstance(n, ast.Attribute):
             txt = ast.unparse(n)
